@@ -81,6 +81,55 @@ fn run_program(program: &Program, job: &Value) -> Value {
     }
 }
 
+fn trace_check(program: &Program, job: &Value) -> Value {
+    use miden_air::{ProcessorAir, ProvingOptions, PublicInputs};
+    use miden_processor::math::FieldElement;
+    use winter_air::{Air, EvaluationFrame};
+    use winter_prover::Trace;
+    let mut st = u64s(&job["stack"]);
+    st.reverse();
+    let stack = StackInputs::try_from_values(st).unwrap();
+    let adv = AdviceInputs::default().with_stack_values(u64s(&job["advice"])).unwrap();
+    let host = DefaultHost::new(MemAdviceProvider::from(adv));
+    let trace = match miden_processor::execute(program, stack.clone(), host, ExecutionOptions::default()) {
+        Ok(t) => t,
+        Err(e) => return json!({"status":"error","error": format!("{e:?}")}),
+    };
+    let pi = PublicInputs::new(program.clone().into(), stack, trace.stack_outputs().clone());
+    let air = ProcessorAir::new(trace.get_info(), pi, ProvingOptions::default().into());
+    let main = trace.main_segment();
+    let n = main.num_rows();
+    let w = main.num_cols();
+    let periodic = air.get_periodic_column_values();
+    let nmain = air.context().num_main_transition_constraints();
+    let last = n - air.context().num_transition_exemptions();
+    let mut bad: Vec<Value> = Vec::new();
+    let mut rows = 0usize;
+    for i in 0..last {
+        let cur: Vec<Felt> = (0..w).map(|c| main.get(c, i)).collect();
+        let nxt: Vec<Felt> = (0..w).map(|c| main.get(c, (i + 1) % n)).collect();
+        let per: Vec<Felt> = periodic.iter().map(|c| c[i % c.len()]).collect();
+        let frame = EvaluationFrame::from_rows(cur, nxt);
+        let mut res = vec![Felt::ZERO; nmain];
+        air.evaluate_transition(&frame, &per, &mut res);
+        rows += 1;
+        for (j, r) in res.iter().enumerate() {
+            if *r != Felt::ZERO && bad.len() < 10 {
+                bad.push(json!({"row": i, "constraint": j}));
+            }
+        }
+    }
+    // boundary assertions of the main segment
+    let mut bad_assert = 0usize;
+    for a in air.get_assertions() {
+        let v = main.get(a.column(), a.first_step());
+        if v != a.values()[0] {
+            bad_assert += 1;
+        }
+    }
+    json!({"status":"ok","rows": rows, "trace_len": n, "nonzero": bad, "bad_assertions": bad_assert, "constraints": nmain})
+}
+
 fn main() {
     panic::set_hook(Box::new(|_| {}));
     let args: Vec<String> = std::env::args().collect();
@@ -102,6 +151,19 @@ fn main() {
                     Err(e) => out.push(json!({"status":"assembly_error","error": format!("{e:?}")})),
                     Ok(p) => out.push(run_program(&p, job)),
                 }
+            }
+            "trace_check" => {
+                // execute a program and evaluate every main transition constraint of the real AIR
+                // on every non-exempt row pair of the real trace
+                let mut asm = Assembler::default();
+                if job["stdlib"].as_bool().unwrap_or(false) {
+                    asm = asm.with_library(&miden_stdlib::StdLibrary::default()).unwrap();
+                }
+                let program = match asm.compile(job["source"].as_str().unwrap()) {
+                    Err(e) => { out.push(json!({"status":"assembly_error","error": format!("{e:?}")})); continue; }
+                    Ok(p) => p,
+                };
+                out.push(trace_check(&program, job));
             }
             k => panic!("unknown job kind {k}"),
         }
